@@ -491,6 +491,26 @@ pub fn run(cfg: &Cfg, rep: &mut Report) {
             }
             rep.add("saturating_add_large_deltas", 1);
         }
+        // the three-channel colours and the HSL space go through the same
+        // generic impl with DIM = 3: exercised as well
+        for d in (-255i32..=255).chain([256, -256, 32768, -32769, 65536, i32::MAX, i32::MIN]) {
+            let sat = |c: u8, d: i32| (c as i64 + d as i64).clamp(0, 255) as u8;
+            let nd = d.checked_neg().unwrap_or(i32::MAX);
+            let exp = [sat(ch, d), sat(255 - ch, nd), sat(128, d / 3)];
+            let c3: Color3 = rgb(ch, 255 - ch, 128);
+            let d3: Vector<[i32; 3], re::math::color::Rgb> = Vector::new([d, nd, d / 3]);
+            let h3: Color3<Hsl> = hsl(ch, 255 - ch, 128);
+            let dh: Vector<[i32; 3], Hsl> = Vector::new([d, nd, d / 3]);
+            let r = catch(|| (c3.add(&d3).0, h3.add(&dh).0));
+            match r {
+                Ok((a, b)) if a == exp && b == exp => {}
+                other => {
+                    rep.violation("color.u8_add_not_saturating", format!("rgb/hsl({ch},{},128) + ({d},{nd},{}) = {other:?}, expected saturation to {exp:?}", 255 - ch, d / 3), Json::obj().set("channel", ch as u32).set("delta", d).set("type", "Color3<Rgb> / Color3<Hsl>"));
+                    break;
+                }
+            }
+            rep.add("saturating_add_three_channel", 1);
+        }
         rep.evaluations += 510;
         rep.case(i | 3 << 40, true);
         rep.add("saturating_add_pairs", 511);
@@ -500,6 +520,7 @@ pub fn run(cfg: &Cfg, rep: &mut Report) {
     rep.floor("alpha_path_checks", 500_000);
     rep.floor("packing_words", 1 << 24);
     rep.floor("saturating_add_pairs", 256 * 511);
+    rep.floor("saturating_add_three_channel", 256 * 511);
     rep.floor("f32_magnitudes.grays_darker_than_1e-6", 10_000);
     rep.floor("f32_hsl_rgb_hsl_compositions_judged", 200_000);
     let _ = hsla(0u8, 0, 0, 0);
